@@ -124,24 +124,31 @@ def width(ctx, fillkind):
     return ctx.done(ok, ctx.observe(r[1]))
 
 
-def reindex_like(ctx, lk0, lk1):
+def reindex_like(ctx, lk0, lk1, k0=2, k1=2, via='dimarray'):
     """reindex_like applies the same rule to every dimension shared with the template"""
     a, ref, dims, labels = build(ctx, [2, 2], [lk0, lk1])
-    n0 = [ctx.label(lk0, 'n0_%d' % j) for j in range(2)]
-    n1 = [ctx.label(lk1, 'n1_%d' % j) for j in range(2)]
+    n0 = [ctx.label(lk0, 'n0_%d' % j) for j in range(k0)]
+    n1 = [ctx.label(lk1, 'n1_%d' % j) for j in range(k1)]
     for l in (n0, n1):
-        ctx.assume(l[0] != l[1])
+        if len(l) == 2:
+            ctx.assume(l[0] != l[1])
     e = ctx.label('i', 'e0')
     # template: dims (y, z, x) -> shares x and y with a, in another order, plus an extra dimension
-    t = ctx.mk(['y', 'z', 'x'], [n1, [e], n0], [0.0] * 4, lkinds=[lk1, 'i', lk0])
+    t = ctx.mk(['y', 'z', 'x'], [n1, [e], n0], [0.0] * (k0 * k1), lkinds=[lk1, 'i', lk0])
+    if via == 'axes':
+        t = t.axes
+    elif via == 'dataset':
+        ds = ctx.da.Dataset()
+        ds['t'] = t
+        t = ds
     r = ctx.call(lambda: a.reindex_like(t))
     if r[0] != 'ok':
         return ctx.done(False, r[1])
     f0 = [find(labels[0], q) for q in n0]
     f1 = [find(labels[1], q) for q in n1]
     cells = []
-    for i in range(2):
-        for j in range(2):
+    for i in range(k0):
+        for j in range(k1):
             cells.append(float('nan') if f0[i] is None or f1[j] is None else ref.at((f0[i], f1[j])))
     return ctx.done(same(ctx, r[1], Ref(['x', 'y'], [n0, n1], cells)), ctx.observe(r[1]))
 
@@ -209,4 +216,9 @@ def templates():
     add('under-position-repeated', 'reindex', cost=8, shape=[3], pos=0, lkind='i', k=3, under={'indexing.by': 'position'})
     for lk0, lk1 in (('i', 'i'), ('U', 'f')):
         add('like-%s%s' % (lk0, lk1), 'reindex_like', cost=6, lk0=lk0, lk1=lk1)
+    # a template with exactly one label along a shared dimension; templates given as Axes / Dataset
+    for k0, k1 in ((1, 2), (2, 1), (1, 1)):
+        add('like-single-%d%d' % (k0, k1), 'reindex_like', cost=2, lk0='i', lk1='i', k0=k0, k1=k1)
+    for via in ('axes', 'dataset'):
+        add('like-via-%s' % via, 'reindex_like', cost=3, lk0='i', lk1='U', k0=1, k1=2, via=via)
     return ts
